@@ -127,10 +127,15 @@ class LearnRun:
                     cases.append({"cid": "%d.%d.%d" % (di, k, pi), "op": "learn", "di": di, "k": k, "pi": pi,
                                   "jobs": [jobdef.job_json(j) for j in js], "present": pres, "sub": None,
                                   "uuid_seed": self.seed * 101 + pi, "timeout": self.timeout})
-                for si, sub in enumerate(self._subsets(di, k, len(js))):
+                run_ks = [kk for kk in self.ks if kk == self.ks[-1]
+                          or len(self.jobs[kk][di]) != len(self.jobs[self.ks[-1]][di])]
+                first_k = k == run_ks[0]
+                subs, exhaustive = self._subsets(di, k, len(js), first_k)
+                for si, sub in enumerate(subs):
                     pres = presentation(self.seed, 1 + si % 3) if si % 2 else self.presentations[0]
                     cases.append({"cid": "%d.%d.s%d" % (di, k, si), "op": "learn", "di": di, "k": k, "pi": 0,
                                   "jobs": [jobdef.job_json(js[i]) for i in sub], "present": pres, "sub": list(sub),
+                                  "subkind": "subset" if exhaustive else "subset-sampled",
                                   "uuid_seed": self.seed * 101 + si, "timeout": self.timeout})
         res = learner.run_cases(cases, hashseed=self.hashseed)
         for c in cases:
@@ -138,22 +143,29 @@ class LearnRun:
             ast, prob = parse_output(r)
             self.records.append({"di": c["di"], "k": c["k"], "pi": c["pi"], "name": self.named[c["di"]][0],
                                  "present": c["present"], "res": r, "ast": ast, "problem": prob, "sub": c["sub"],
+                                 "subkind": c.get("subkind"),
                                  "uuid_seed": c["uuid_seed"]})
         return self
 
-    def _subsets(self, di, k, n):
-        """proper non-empty subsets of the job set (indices): all of them for small sets, seeded samples otherwise"""
+    def _subsets(self, di, k, n, first_k=True):
+        """proper non-empty subsets of the job set (indices): all of them for small sets (at the smallest loop bound
+        that is run for the definition), seeded samples otherwise.  Returns (subsets, exhaustive?)"""
         if not self.subsets or n < 2:
-            return []
+            return [], False
         import itertools
-        if n <= self.subsets.get("all_upto", 0) and k == self.ks[0]:
-            return [c for m in range(1, n) for c in itertools.combinations(range(n), m)]
+        if n <= self.subsets.get("all_upto", 0) and first_k:
+            return [c for m in range(1, n) for c in itertools.combinations(range(n), m)], True
         r = rng(self.seed, "subsets", self.named[di][0], k)
         out = set()
         for _ in range(self.subsets.get("sampled", 0)):
             m = r.randrange(1, n)
             out.add(tuple(sorted(r.sample(range(n), m))))
-        return sorted(out)
+        return sorted(out), False
+
+    def subset_digest(self, rec):
+        """identifies the job subset a record was learned from, independently of job numbering"""
+        import hashlib
+        return hashlib.sha1(repr(sorted(jobdef.canon(j) for j in self.rec_jobs(rec))).encode()).hexdigest()[:10]
 
     def rec_jobs(self, rec):
         """the jobs a record was learned from"""
